@@ -166,6 +166,15 @@ impl Router {
             })
             .unwrap_or((false, false, false, None, None));
 
+        // `HttpContext::reset` keeps `sticky_session` across the requests of
+        // a keep-alive connection. When this request goes to a cluster
+        // without sticky sessions, a value left by an earlier request for a
+        // sticky cluster would make the response carry that other cluster's
+        // sticky `Set-Cookie`.
+        if !frontend_should_stick {
+            stream_context.sticky_session = None;
+        }
+
         // ── Legacy `cluster.https_redirect` short-circuit ──
         //
         // Resolve the legacy HTTP→HTTPS redirect BEFORE per-(cluster,
